@@ -7,7 +7,7 @@ From MSP Require Import Gen.Consts L2.Sys L2.Szdd Proofs.Mon.
 Local Open Scope N_scope.
 
 Section LzssLoop.
-Variables (inh outh : handle) (bufsize : Z) (window : ptr) (L R W : gset N).
+Variables (junk : byte) (inh outh : handle) (bufsize : Z) (window : ptr) (L R W : gset N).
 Hypothesis Hin : inh ∈ R. Hypothesis Hout : outh ∈ W. Hypothesis Hwin : window ∈ L. Hypothesis Hbuf : (0 <= bufsize)%Z.
 Definition Qx : N -> mon -> Prop := fun _ => st (L ∖ {[window]}) R W.
 
@@ -25,19 +25,19 @@ Proof.
   intro Hk. unfold putbyte. eapply t_bind; [apply (t_write L R W outh _ Hout)|]. intros w. cbn beta.
   destruct (Z.eqb w 1); [apply Hk|apply t_stop].
 Qed.
-Lemma t_copy n : forall s mpos k, (forall s', triple (st L R W) (k s') Qx) -> triple (st L R W) (copy outh window n s mpos k) Qx.
+Lemma t_copy n : forall s mpos k, (forall s', triple (st L R W) (k s') Qx) -> triple (st L R W) (copy junk outh window n s mpos k) Qx.
 Proof.
   induction n as [|n IH]; intros s mpos k Hk; cbn [copy]; [apply Hk|].
   apply t_putbyte. intros s'. apply IH. exact Hk.
 Qed.
-Lemma t_items n : forall c bit s k, (forall s', triple (st L R W) (k s') Qx) -> triple (st L R W) (items inh outh bufsize window n c bit s k) Qx.
+Lemma t_items n : forall c bit s k, (forall s', triple (st L R W) (k s') Qx) -> triple (st L R W) (items junk inh outh bufsize window n c bit s k) Qx.
 Proof.
   induction n as [|n IH]; intros c bit s k Hk; cbn [items]; [apply Hk|].
   destruct (N.testbit c bit).
   - apply t_getbyte. intros s1 b. apply t_putbyte. intros s2. apply IH. exact Hk.
   - apply t_getbyte. intros s1 m1. apply t_getbyte. intros s2 m2. apply t_copy. intros s3. apply IH. exact Hk.
 Qed.
-Lemma t_loop fuel : forall inv s, triple (st L R W) (loop inh outh bufsize window fuel inv s) Qx.
+Lemma t_loop fuel : forall inv s, triple (st L R W) (loop junk inh outh bufsize window fuel inv s) Qx.
 Proof.
   induction fuel as [|f IH]; intros inv s; cbn [loop]; [apply t_stop|].
   apply t_getbyte. intros s1 c. apply t_items. intros s2. apply IH.
@@ -45,15 +45,15 @@ Qed.
 End LzssLoop.
 
 (* lzss_decompress: allocates the window and frees it on every exit, touches nothing else *)
-Lemma t_lzss_decompress fuel inh outh bufsize mode L R W :
+Lemma t_lzss_decompress junk fuel inh outh bufsize mode L R W :
   inh ∈ R -> outh ∈ W -> (0 <= bufsize)%Z ->
-  triple (st L R W) (lzss_decompress fuel inh outh bufsize mode) (fun _ => st L R W).
+  triple (st L R W) (lzss_decompress junk fuel inh outh bufsize mode) (fun _ => st L R W).
 Proof.
   intros Hin Hout Hb. unfold lzss_decompress.
   eapply t_bind; [apply (t_alloc L R W); unfold LZSS_WINDOW_SIZE; lia|]. intros w. cbn beta.
   destruct w as [w|]; [|apply t_ret; auto].
   apply t_pre_prop. intro Hfresh.
-  eapply t_conseq; [apply (t_loop inh outh bufsize w ({[w]} ∪ L) R W Hin Hout ltac:(set_solver) Hb)|auto|].
+  eapply t_conseq; [apply (t_loop junk inh outh bufsize w ({[w]} ∪ L) R W Hin Hout ltac:(set_solver) Hb)|auto|].
   intros a m H. unfold Qx in H. destruct H as (HL & HR & HW). unfold st. repeat split; auto. rewrite HL. set_solver.
 Qed.
 
@@ -110,8 +110,8 @@ Proof.
       apply t_ret. intros m H. cbn [fst snd sptr]. split; [exact H|reflexivity].
 Qed.
 
-Lemma t_szdd_extract fuel s h k L R W : hfh h ∈ R ->
-  triple (st L R W) (szdd_extract fuel s h (FOut k)) (fun r m => st L R W m /\ sptr (snd r) = sptr s).
+Lemma t_szdd_extract junk fuel s h k L R W : hfh h ∈ R ->
+  triple (st L R W) (szdd_extract junk fuel s h (FOut k)) (fun r m => st L R W m /\ sptr (snd r) = sptr s).
 Proof.
   intro Hfh. unfold szdd_extract.
   eapply t_bind; [apply (t_seek L R W (hfh h)); [set_solver|unfold SEEK_START; lia]|]. intros ok. cbn beta.
@@ -119,7 +119,7 @@ Proof.
   eapply t_bind; [apply t_open_out|]. intros o. cbn beta.
   destruct o as [oh|]; [|apply t_ret; auto].
   apply t_pre_prop. intro Hoh.
-  eapply t_bind; [apply (t_lzss_decompress fuel (hfh h) oh SZDD_INPUT_SIZE _ L R ({[oh]} ∪ W)); [exact Hfh|set_solver|unfold SZDD_INPUT_SIZE; lia]|].
+  eapply t_bind; [apply (t_lzss_decompress junk fuel (hfh h) oh SZDD_INPUT_SIZE _ L R ({[oh]} ∪ W)); [exact Hfh|set_solver|unfold SZDD_INPUT_SIZE; lia]|].
   intros e. cbn beta.
   eapply t_bind; [apply (t_close L R ({[oh]} ∪ W) oh); set_solver|]. intros ?u.
   apply t_ret. intros m (HL & HR & HW). cbn [snd sptr]. split; [|reflexivity].
@@ -136,8 +136,8 @@ Proof.
   unfold st. rewrite HL, HR, HW. repeat split; set_solver.
 Qed.
 
-Lemma t_szdd_decompress fuel s ki ko L R W :
-  triple (st L R W) (szdd_decompress fuel s (FIn ki) (FOut ko)) (fun r m => st L R W m /\ sptr (snd r) = sptr s).
+Lemma t_szdd_decompress junk fuel s ki ko L R W :
+  triple (st L R W) (szdd_decompress junk fuel s (FIn ki) (FOut ko)) (fun r m => st L R W m /\ sptr (snd r) = sptr s).
 Proof.
   unfold szdd_decompress.
   eapply t_bind; [apply t_szdd_open|]. intros [h s1]. cbn [fst snd].
@@ -145,7 +145,7 @@ Proof.
   - apply (t_pre_extract _ (hptr hd ∉ L ∪ R ∪ W /\ hfh hd ∉ L ∪ R ∪ W /\ hptr hd <> hfh hd /\ sptr s1 = sptr s)); [intros m H; tauto|].
     intros (Hp & Hf & Hne & Hs1).
     apply (t_pre_weaken _ (st ({[hptr hd]} ∪ L) ({[hfh hd]} ∪ R) W)); [intros m H; tauto|].
-    eapply t_bind; [apply (t_szdd_extract fuel s1 hd ko); set_solver|]. intros [e s2]. cbn [snd].
+    eapply t_bind; [apply (t_szdd_extract junk fuel s1 hd ko); set_solver|]. intros [e s2]. cbn [snd].
     apply t_pre_prop_r. intro Hs2.
     eapply t_bind; [eapply t_conseq; [apply (t_szdd_close s2 hd L R W Hp Hf Hne)|intros m H; apply H|intros a m H; exact H]|].
     intros s3. apply t_ret. intros m [H1 H2]. cbn [snd sptr]. split; [exact H1|]. congruence.
@@ -153,7 +153,7 @@ Proof.
 Qed.
 
 (* script A: create; decompress(in -> out); destroy *)
-Lemma t_script_decompress fuel : triple (st ∅ ∅ ∅) (script_decompress fuel) (fun _ => st ∅ ∅ ∅).
+Lemma t_script_decompress junk fuel : triple (st ∅ ∅ ∅) (script_decompress junk fuel) (fun _ => st ∅ ∅ ∅).
 Proof.
   unfold script_decompress, szdd_new, szdd_destroy.
   eapply t_bind.
@@ -162,13 +162,13 @@ Proof.
     intros m H. destruct sp as [p|]; cbn [sptr]; [split; [set_solver|apply H]|exact H].
   - intros so. cbn beta. destruct so as [s|]; [|apply t_ret; auto].
     apply t_pre_prop. intros _.
-    eapply t_bind; [apply (t_szdd_decompress fuel s 0 0)|]. intros [e s']. cbn [snd].
+    eapply t_bind; [apply (t_szdd_decompress junk fuel s 0 0)|]. intros [e s']. cbn [snd].
     apply t_pre_prop_r. intro Hs.
     eapply t_bind; [rewrite Hs; apply (t_free_some ({[sptr s]} ∪ ∅) ∅ ∅ (sptr s)); set_solver|]. intros ?u.
     apply t_ret. intros m (HL & HR & HW). unfold st. rewrite HL, HR, HW. repeat split; set_solver.
 Qed.
 
-Lemma t_script_open_extract fuel : triple (st ∅ ∅ ∅) (script_open_extract fuel) (fun _ => st ∅ ∅ ∅).
+Lemma t_script_open_extract junk fuel : triple (st ∅ ∅ ∅) (script_open_extract junk fuel) (fun _ => st ∅ ∅ ∅).
 Proof.
   unfold script_open_extract, szdd_new, szdd_destroy.
   eapply t_bind.
@@ -183,9 +183,9 @@ Proof.
     + apply (t_pre_extract _ (hptr hd ∉ L0 ∪ ∅ ∪ ∅ /\ hfh hd ∉ L0 ∪ ∅ ∪ ∅ /\ hptr hd <> hfh hd /\ sptr s1 = sptr s)); [intros m H; tauto|].
       intros (Hp & Hf & Hne & Hs1).
       apply (t_pre_weaken _ (st ({[hptr hd]} ∪ L0) ({[hfh hd]} ∪ ∅) ∅)); [intros m H; tauto|].
-      eapply t_bind; [apply (t_szdd_extract fuel s1 hd 0); set_solver|]. intros [e1 s2]. cbn [snd].
+      eapply t_bind; [apply (t_szdd_extract junk fuel s1 hd 0); set_solver|]. intros [e1 s2]. cbn [snd].
       apply t_pre_prop_r. intro Hs2.
-      eapply t_bind; [apply (t_szdd_extract fuel s2 hd 1); set_solver|]. intros [e2 s3]. cbn [snd].
+      eapply t_bind; [apply (t_szdd_extract junk fuel s2 hd 1); set_solver|]. intros [e2 s3]. cbn [snd].
       apply t_pre_prop_r. intro Hs3.
       eapply t_bind; [apply (t_szdd_close s3 hd L0 ∅ ∅ Hp Hf Hne)|]. intros s4. cbn beta.
       apply t_pre_prop_r. intro Hs4.
@@ -208,7 +208,7 @@ Qed.
 
 (* For EVERY host: after create; decompress(in, out); destroy  -- and after  create; open; extract; extract; close; destroy --
    nothing is left allocated or open, nothing was freed/closed twice or used after release, and every callback was used as documented. *)
-Theorem szdd_script_decompress_clean : forall (o : oracle) fuel, clean (snd (run o mon0 (script_decompress fuel))).
-Proof. intros o fuel. apply triple_clean. apply t_script_decompress. Qed.
-Theorem szdd_script_open_extract_clean : forall (o : oracle) fuel, clean (snd (run o mon0 (script_open_extract fuel))).
-Proof. intros o fuel. apply triple_clean. apply t_script_open_extract. Qed.
+Theorem szdd_script_decompress_clean : forall (o : oracle) junk fuel, clean (snd (run o mon0 (script_decompress junk fuel))).
+Proof. intros o junk fuel. apply triple_clean. apply t_script_decompress. Qed.
+Theorem szdd_script_open_extract_clean : forall (o : oracle) junk fuel, clean (snd (run o mon0 (script_open_extract junk fuel))).
+Proof. intros o junk fuel. apply triple_clean. apply t_script_open_extract. Qed.
